@@ -551,4 +551,3 @@ func (m *Machine) symInt(name string, w int, kind string) *Term {
 	m.path.inputs = append(m.path.inputs, inputVar{name: name, kind: kind, terms: []*Term{v}})
 	return v
 }
-
